@@ -168,6 +168,15 @@ Theorem C10_exec_overlap : forall sz fl clk root pre c h mid b cc,
 Proof. exact exec_overlap. Qed.
 Print Assumptions C10_exec_overlap.
 
+(* A Timer(n) whose allocation the cached reporter refuses (AllocateTimer
+   panics, the caller recovers) leaves nothing behind: the state is unchanged,
+   so the name can be requested again - and then is allocated, or refused,
+   afresh - and all the theorems above apply to what follows. *)
+Theorem C10_refused_allocation : forall sz fl clk s i n,
+  step sz fl clk s (OTimerRefused i n) = s.
+Proof. reflexivity. Qed.
+Print Assumptions C10_refused_allocation.
+
 (* the next report pass hands each non-zero counter to the reporter, once, and resets it *)
 Theorem C10_pass_counters : forall s,
   (forall c, In c (counters s) -> cpend c <> 0 ->
